@@ -32,7 +32,7 @@ RUN_WALL = 30
 HARD_WALL = 600
 
 PROFILE = dict(
-    p_pool_l=0.25, p_pool_s=0.15, ckpt=True, p_long_sampling=0.2, p_frequent_bounds=0.2,
+    p_pool_l=0.25, p_pool_s=0.15, ckpt=True, p_long_sampling=0.12, p_frequent_bounds=0.2, p_many_ellipsoids=0.2,
     fault_kinds=['stop_resume', 'stop_resume', 'stop_resume', 'kill', 'kill',
                  'kill_in_write', 'slice', 'timeout', 'observe'])
 
@@ -227,6 +227,9 @@ def full_state(world):
                 bs.append([int(o.n_sample), int(o.n_reject),
                            np.asarray(o.points)])
     parts['bound_sampling_state'] = digest.digest(bs)
+    # geometry of every bound, member ellipsoids in their stored order
+    parts['bound_geometry'] = digest.digest(
+        [mon.bound_fingerprint(b) for b in world.sampler.bounds])
     s = world.sampler
     parts['sampler_state'] = digest.digest(dict(
         explored=bool(s.explored), discard=bool(s._discard_exploration),
